@@ -17,7 +17,8 @@ EXTENDS MC_Foreign
 BaseChoices == [refw |-> 2, cpid |-> 1252, holes |-> "none", dup |-> FALSE, over |-> FALSE, validation |-> TRUE,
                 unsorted |-> FALSE, int1 |-> FALSE, ps |-> "asc"]
 Bases == {[db |-> "d2", c |-> BaseChoices], [db |-> "d2", c |-> [BaseChoices EXCEPT !.refw = 3, !.validation = FALSE]],
-          [db |-> "d1", c |-> [BaseChoices EXCEPT !.holes = "empty", !.cpid = 65001]]}
+          [db |-> "d1", c |-> [BaseChoices EXCEPT !.holes = "empty", !.cpid = 65001]],
+          [db |-> "d6", c |-> BaseChoices]}
 
 \* kinds of damage to a cell, by the kind of column it sits in
 CellKinds(isString) == IF isString THEN {"null", "dangling", "huge", "first"} ELSE {"null", "one", "max", "min"}
@@ -39,7 +40,8 @@ PsSites == {[site |-> "ps", field |-> f, kind |-> k] :
            \cup {[site |-> "ps", field |-> "cpvalue", kind |-> k] : k \in {"ascii", "sjis", "latin1"}}
 \* the template property of the summary ("arch;languages") as text the library's own setters never write
 TemplateSites == {[site |-> "template", kind |-> k] : k \in {"nosemi", "empty", "onlysemi", "twosemi", "badlang", "gaps"}}
-OtherSites == {[site |-> "clsid", kind |-> "zero"], [site |-> "clsid", kind |-> "other"]} \cup TemplateSites
+\* more pool entries than two-byte references can address (unused ones appended), the flag for three-byte references not set
+OtherSites == {[site |-> "clsid", kind |-> "zero"], [site |-> "clsid", kind |-> "other"], [site |-> "pooltail", kind |-> "overlong"]} \cup TemplateSites
 
 \* every row of the catalog tables, the first and the last row of the user tables; every column, every kind of damage
 AllCellSites(i, img) ==
